@@ -58,6 +58,8 @@ def run(chk, prog, tier):
     # the spelling of one line cannot reach another: the per-line record is fresh for every line
     from checks import C06
     C06.fresh_record_rule(chk, prog, roles, rule="FRESH")
+    # radix: what one displacement scanner decides through the shared out-parameter is not reset by the next one
+    PL.outparam_kill_rule(chk, prog)
     # blanks / line ends: the scan never depends on the raw column; CR, LF and CRLF end a line and leave the rest for the next call
     from valib import scan as SC
     SC.column_independence_rule(chk, prog, roles)
